@@ -1,0 +1,18 @@
+// Copyright (c) 2026 10X Genomics, Inc. All rights reserved.
+
+//go:build verif
+
+package core
+
+import (
+	"encoding/json"
+
+	"github.com/martian-lang/martian/martian/syntax"
+)
+
+// VerifFilterArgs exposes LazyArgumentMap.filter for the external verification
+// harness (property C10).  This file is only compiled with `-tags verif`.
+func VerifFilterArgs(args LazyArgumentMap, t syntax.Type,
+	lookup *syntax.TypeLookup) (json.Marshaler, error) {
+	return args.filter(t, lookup)
+}
